@@ -21,6 +21,9 @@ type c15Cfg struct {
 	Writers []int `json:"writers"`              // writer -> stream
 	Bulk    int   `json:"bulk"`                 // extra packets written by writer 0 round-robin over streams (wrap run)
 	Reuse   bool  `json:"reuse_info,omitempty"` // the caller reuses the extension list of a StreamInfo for the next stream after Bind returned
+	// further streams that are bound at the start, never written, and unbound while the others are writing
+	ExtraIDs   []int   `json:"extra_ids,omitempty"`   // 0 = not negotiated
+	ExtraUnbUs []int64 `json:"extra_unb_us,omitempty"` // when each of them is unbound
 }
 
 type c15Op struct {
@@ -80,6 +83,12 @@ func (c15) Gen(seed int64, tier string, avoid []string) *Plan {
 		}
 		o.WErr = chance(r, errP)
 		ops = append(ops, o)
+	}
+	if chance(r, 300) {
+		for k := 1 + r.Intn(3); k > 0; k-- {
+			cfg.ExtraIDs = append(cfg.ExtraIDs, pick(r, 0, 0, 1+r.Intn(14)))
+			cfg.ExtraUnbUs = append(cfg.ExtraUnbUs, int64(r.Intn(20000)))
+		}
 	}
 	p.Cfg = mustJSON(cfg)
 	setOps(p, ops)
@@ -143,13 +152,26 @@ func (c15) Run(e *Env) {
 			e.Fault("caller_reuses_stream_info")
 		}
 	}
+	var gs []*simrt.G
+	for x, id := range cfg.ExtraIDs {
+		info := streamInfo(uint32(7000+x), 100, 90000)
+		if id != 0 {
+			info.RTPHeaderExtensions = []interceptor.RTPHeaderExtension{{URI: twccURI, ID: id}}
+		}
+		ic.BindLocalStream(info, interceptor.RTPWriterFunc(func(*rtp.Header, []byte, interceptor.Attributes) (int, error) { return 0, nil }))
+		at := cfg.ExtraUnbUs[x]
+		gs = append(gs, e.Go(fmt.Sprintf("unbind%d", x), func() {
+			simrt.SleepUntil(us(at))
+			e.Fault("unbind_other_stream")
+			ic.UnbindLocalStream(info) // the numbering of the streams that stay is none of its business
+		}))
+	}
 	byW := make([][]c15Op, len(cfg.Writers))
 	for _, o := range ops {
 		if o.W < len(byW) {
 			byW[o.W] = append(byW[o.W], o)
 		}
 	}
-	var gs []*simrt.G
 	for w, st := range cfg.Writers {
 		wops := byW[w]
 		gs = append(gs, e.Go(fmt.Sprintf("writer%d", w), func() {
